@@ -330,9 +330,19 @@ fn is_useful_wildcard(
     if is_complete_signature {
         // 3. If it is a complete signature:
 
+        // A wildcard in the first column stands for "every constructor that is not listed".
+        // If the listed constructors already form a complete signature there is no such
+        // constructor, so specializing by the wildcard would only produce spurious witnesses.
+        let listed_constructors = sigma.filter_out_wildcards();
+        let listed_constructors_are_complete = !listed_constructors.is_empty()
+            && factory.is_complete_signature(handler, engines, &listed_constructors, span)?;
+
         let mut witness_report = WitnessReport::NoWitnesses;
         let mut pat_stack = PatStack::empty();
         for c_k in sigma.iter() {
+            if listed_constructors_are_complete && matches!(c_k, Pattern::Wildcard) {
+                continue;
+            }
             //     3.1. For every every *k* 0..*n*, compute the specialized `Matrix`
             //        *S(cₖ, P)*
             let s_c_k_p = compute_specialized_matrix(handler, c_k, p, q, span)?;
